@@ -126,11 +126,11 @@ def inline_single_sets(N, ast) -> int:
     inlining one, therefore does not change what any rule sees.  Variables assigned on several branches are resolved per
     path by the renderer (j2text)."""
     total = 0
-    for m in ast.find_all(N.Macro):
+    for m in list(ast.find_all(N.Macro)) + [ast]:      # every macro, then the template's top level (same rule, no parameters)
         nodes = _scope_nodes(N, m)
         counts = {}
         bound = {}
-        blocked = {a.name for a in m.args}
+        blocked = {a.name for a in getattr(m, "args", [])}
         for n in nodes:
             if isinstance(n, N.Assign):
                 if isinstance(n.target, N.Name):
@@ -187,7 +187,7 @@ def inline_single_sets(N, ast) -> int:
         for name, loop in loop_local.items():
             e = bound[name].node
             subs = [e] + list(e.find_all(N.Node))
-            if any(isinstance(x, N.Call) for x in subs) or any(isinstance(x, N.Filter) and "unique" in x.name for x in subs):
+            if any(isinstance(x, N.Call) and not _pure_method_call(N, x) for x in subs) or any(isinstance(x, N.Filter) and "unique" in x.name for x in subs):
                 continue
             _replace_names(N, loop, {name: e})
             total += 1
